@@ -22,7 +22,8 @@ LEVEL = "exploration"
 RULE = (
     "A case = (protocol version, current NCP value per setting from {below, equal to, above the "
     "tree's default, unreadable}, user override set over the version's schema keys with each "
-    "override a new in-range value or None, set of settings the NCP rejects).  Cases are seeded "
+    "override a new in-range value or None, set of settings the NCP rejects, each with a status code "
+    "cycling through the whole status family of the reply).  Cases are seeded "
     "random with forced coverage of: no overrides, override of a setting with / without a default, "
     "disabling a setting with / without a default, override of the buffer count, every capacity "
     "setting above its default.  Non-trivial = at least one override or one current value differing "
@@ -38,7 +39,7 @@ ASSUMPTIONS = [
 REACH = {t: ["versions_11", "cur_below", "cur_equal", "cur_above", "cur_unreadable", "override_default",
              "override_nondefault", "disabled_default", "disabled_nondefault", "rejected_then_accepted",
              "buffer_count_written", "buffer_count_overridden", "capacity_kept", "capacity_grown",
-             "value_setting_written"] for t in ("quick", "thorough")}
+             "value_setting_written", "rejection_status_family_covered"] for t in ("quick", "thorough")}
 SHARD_TIMEOUT = {"quick": 900, "thorough": 3600}
 PBC = "CONFIG_PACKET_BUFFER_COUNT"
 
@@ -121,7 +122,9 @@ def run_shard(desc) -> Acc:
                     store.values[cid(name)] = val
             for name in value_defaults:
                 store.ezsp_values[int(t.EzspValueId[name])] = b"\x00"
-            store.reject = {cid(n) for n in rejects}
+            # every rejection carries its own status code, drawn from the whole status family of
+            # this version's setConfigurationValue reply (the reason must not matter)
+            store.reject = {cid(n): code for n, code in rejects.items()} if isinstance(rejects, dict) else {cid(n) for n in rejects}
             ncpmodel.install_config(ncp, store)
             exc = None
             try:
@@ -130,6 +133,13 @@ def run_shard(desc) -> Acc:
                 exc = ex
             return store, exc
 
+        rs_type = cls.COMMANDS["setConfigurationValue"][2]["status"]
+        if rs_type.__name__ == "sl_Status":
+            reject_codes = sorted(int(m) for m in rs_type if int(m) != 0) + [0x7777, 0xFFFFFFFF]
+        else:
+            reject_codes = list(range(1, 256))
+        rnd.shuffle(reject_codes)
+        codes_used = set()
         forced = ["none", "ov_default", "ov_nondefault", "dis_default", "dis_nondefault", "ov_pbc", "cap_above", "ov_cap"]
         nondefault_keys = sorted(k for k in keys if k not in lib_defaults)
         default_keys = sorted(k for k in keys if k in lib_defaults)
@@ -184,7 +194,10 @@ def run_shard(desc) -> Acc:
                 overrides = {rnd.choice(nondefault_keys): None}
             rej_pool = [n for n in set(list(lib_defaults) + list(overrides)) if n in keys or n in lib_defaults]
             rejects = set(rnd.sample(rej_pool, min(len(rej_pool), rnd.choice([0, 1, 2, 4])))) if it % 2 else set()
-            case = {"version": V, "current": current, "overrides": overrides, "rejects": sorted(rejects)}
+            rejects = {n_: reject_codes[(it * 5 + j_) % len(reject_codes)] for j_, n_ in enumerate(sorted(rejects))}
+            for c_ in rejects.values():
+                codes_used.add(c_)
+            case = {"version": V, "current": current, "overrides": overrides, "rejects": rejects}
             acc.case()
             store, exc = await one_run(current, overrides, rejects)
             log = store.log
@@ -231,7 +244,7 @@ def run_shard(desc) -> Acc:
                     bad.append((key, f"{PBC} was followed by {after}"))
             # 6. a rejection does not stop the rest: twin run with every answer accepting
             if rejects and exc is None:
-                store2, exc2 = await one_run(current, overrides, set())
+                store2, exc2 = await one_run(current, overrides, {})
                 a = sorted({(k, i) for (k, i, v, ok) in log})
                 b = sorted({(k, i) for (k, i, v, ok) in store2.log})
                 if exc2 is None and a != b:
@@ -257,9 +270,12 @@ def run_shard(desc) -> Acc:
                 acc.hit("value_setting_written")
             if overrides or any(kd != "equal" for kd in curkind.values()):
                 acc.nontrivial((V, tuple(sorted((k, v) for k, v in current.items() if k in lib_defaults)),
-                                tuple(sorted(overrides.items(), key=repr)), tuple(sorted(rejects))))
+                                tuple(sorted(overrides.items(), key=repr)), tuple(sorted(rejects.items()))))
             if len(acc.samples) < 2 and overrides and rejects:
                 acc.sample({"case": case, "set_frames": [repr(x) for x in allsets]})
+        acc.ev("distinct_rejection_status_codes", len(codes_used))
+        if len(codes_used) >= min(100, len(reject_codes)):
+            acc.hit("rejection_status_family_covered")
 
     try:
         vloop.run(main)
